@@ -604,5 +604,18 @@ class MailboxSet(MailboxSetInterface[MailboxData]):
                 pass
             else:
                 raise ValueError(after)
+            prefix = before + self.delimiter
+            if after.startswith(prefix):
+                raise ValueError(after)  # cannot move a folder below itself
+            for name in self._layout.list_folders(self.delimiter):
+                if name.startswith(prefix):
+                    # an inferior must not land on an existing folder
+                    dest = after + name[len(before):]
+                    try:
+                        self._layout.get_folder(dest, self.delimiter)
+                    except FileNotFoundError:
+                        pass
+                    else:
+                        raise ValueError(dest)
             self._forget(before)
             self._layout.rename_folder(before, after, self.delimiter)
